@@ -29,6 +29,7 @@ pub static MONITOR: M = M;
 const KF_FORMAT_ERRORS: &str = "C18-format-ignores-syntax-errors";
 const KF_BIG_RATIO: &str = "C18-glue-ratio-above-16384-unparseable";
 const KF_DEEP_NESTING: &str = "C18-deep-nesting-overflows-stack";
+const KF_ESCAPE_DESYNC: &str = "C18-lexer-unicode-escape-desync";
 
 // ------------------------------------------------------------------------------------------
 // observing the parser
@@ -61,51 +62,101 @@ fn clip(s: &str) -> String {
 }
 
 fn variant_name(e: &bwl::Error) -> String {
-    let d = format!("{e:?}");
-    d.split(|c: char| !c.is_alphanumeric()).next().unwrap_or("").to_string()
+    // (not through Debug: every `Str` in an error prints the whole source text)
+    use bwl::Error::*;
+    match e {
+        PositionalArgAfterKeywordArg { .. } => "PositionalArgAfterKeywordArg",
+        IncorrectType { .. } => "IncorrectType",
+        TooManyPositionalArgs { .. } => "TooManyPositionalArgs",
+        NoSuchArgument { .. } => "NoSuchArgument",
+        DuplicateArgument { .. } => "DuplicateArgument",
+        NoSuchFunction { .. } => "NoSuchFunction",
+        UnmatchedOpeningBracket { .. } => "UnmatchedOpeningBracket",
+        UnmatchedClosingBracket { .. } => "UnmatchedClosingBracket",
+        InvalidDimensionUnit { .. } => "InvalidDimensionUnit",
+        UnexpectedToken { .. } => "UnexpectedToken",
+        UnknownEscapeSequence { .. } => "UnknownEscapeSequence",
+        MissingArgsForFunction { .. } => "MissingArgsForFunction",
+        MismatchedBraces { .. } => "MismatchedBraces",
+        IncompleteKeywordArg { .. } => "IncompleteKeywordArg",
+        MultipleDecimalPoints { .. } => "MultipleDecimalPoints",
+        NumberWithoutUnits { .. } => "NumberWithoutUnits",
+        InvalidCharacter { .. } => "InvalidCharacter",
+        #[allow(unreachable_patterns)]
+        _ => "OtherError",
+    }
+    .to_string()
+}
+
+enum PanicClass {
+    /// not at a listed site
+    Unlisted,
+    /// at a listed site keyed by its panic signature; `bool` = the text has the trigger
+    ListedSite(bool),
+    /// one of the slicing panics of the `\u` escape family (several sites, one root cause);
+    /// `bool` = the text has the trigger
+    EscapeDesync(bool),
 }
 
 /// Which known lexer crash (if any) a panic belongs to, and whether the text has what it takes.
-/// Returns (is a known site, trigger predicate holds).
-fn classify_panic(p: &PanicInfo, text: &str) -> (bool, bool) {
+fn classify_panic(p: &PanicInfo, text: &str) -> PanicClass {
     let in_lexer = p.repo_file.ends_with("boxworks/src/lang/lexer.rs") || p.file.ends_with("boxworks/src/lang/lexer.rs");
+    let in_lang = p.repo_file.starts_with("crates/boxworks/src/lang/") || p.file.contains("crates/boxworks/src/lang/");
     let in_common = p.file.ends_with("common/src/lib.rs");
     let m = p.message.as_str();
     if in_lexer && m.starts_with("called `Option::unwrap()` on a `None` value") {
-        return (true, textgen::has_integer_overflow(text));
+        return PanicClass::ListedSite(textgen::has_integer_overflow(text));
     }
     if in_lexer && m.starts_with("called `Result::unwrap()` on an `Err` value: OverflowError") {
-        return (true, textgen::may_have_dimension_overflow(text));
+        return PanicClass::ListedSite(textgen::may_have_dimension_overflow(text));
     }
     if in_common && m.starts_with("attempt to multiply with overflow") {
-        return (true, textgen::has_unit_multiplication_overflow(text));
+        return PanicClass::ListedSite(textgen::has_unit_multiplication_overflow(text));
+    }
+    if in_common && m.starts_with("attempt to subtract with overflow") {
+        return PanicClass::ListedSite(textgen::has_fraction_char_below_zero(text));
     }
     if in_lexer && m.starts_with("attempt to multiply with overflow") {
-        return (true, textgen::has_unicode_escape_overflow(text));
+        return PanicClass::ListedSite(textgen::has_unicode_escape_overflow(text));
     }
-    if in_lexer && m.contains("is not a char boundary") {
-        return (true, textgen::has_unicode_escape_without_brace(text));
+    // Slicing the source at an offset that is not where the lexer thinks it is.
+    let slicing = m.contains("is not a char boundary")
+        || m.starts_with("begin > end")
+        || m.starts_with("begin <= end")
+        || m.contains("out of bounds of")
+        || m.contains("out of range for slice")
+        || m.starts_with("slice index starts at");
+    if in_lang && slicing {
+        return PanicClass::EscapeDesync(textgen::has_unicode_escape_trouble(text));
     }
-    (false, false)
+    PanicClass::Unlisted
 }
 
 fn report_panic(p: &PanicInfo, text: &str, what: &str, obs: &mut Obs, ctx: &Value) {
-    let detail = json!({"what": what, "text": clip(text), "context": ctx});
-    let (known_site, trigger) = classify_panic(p, text);
-    if known_site && !trigger && p.in_repo() {
-        // same place as a listed crash, but the text lacks what the listed crash needs: not the
-        // listed defect. Keep it out of reach of the known-finding prefix.
-        let mut d = detail;
-        if let Value::Object(m) = &mut d {
-            m.insert("panic".into(), json!({"file": p.file, "line": p.line, "message": p.message, "function": p.repo_function}));
-        }
-        obs.violation(format!("untriggered:{}", p.signature()), d);
+    let mut detail = json!({"what": what, "text": clip(text), "context": ctx});
+    if let Value::Object(m) = &mut detail {
+        m.insert("panic_site".into(), json!({"file": p.file, "line": p.line, "message": p.message.chars().take(200).collect::<String>(), "function": p.repo_function}));
+    }
+    if !p.in_repo() {
+        obs.repo_panic(p, detail);
         return;
     }
-    if known_site {
-        obs.count("panics_at_listed_lexer_crash_sites");
+    match classify_panic(p, text) {
+        PanicClass::Unlisted => obs.repo_panic(p, detail),
+        PanicClass::ListedSite(true) => {
+            obs.count("panics_at_listed_lexer_crash_sites");
+            obs.repo_panic(p, detail)
+        }
+        PanicClass::EscapeDesync(true) => {
+            obs.count("panics_from_unicode_escape_desync");
+            obs.known(KF_ESCAPE_DESYNC, detail)
+        }
+        // same place as a listed crash, but the text lacks what the listed crash needs: not the
+        // listed defect. Keep it out of reach of the known-finding entries.
+        PanicClass::ListedSite(false) | PanicClass::EscapeDesync(false) => {
+            obs.violation(format!("untriggered:{}", p.signature()), detail)
+        }
     }
-    obs.repo_panic(p, detail);
 }
 
 /// Every error must be *located*: labels with spans inside the text on character boundaries;
@@ -128,10 +179,18 @@ fn check_located(errs: &[bwl::Error], text: &str, obs: &mut Obs, ctx: &Value) {
                     || labels.iter().any(|(s, t)| {
                         s > t || *t > text.len() || !text.is_char_boundary(*s) || !text.is_char_boundary(*t)
                     });
+                if bad && textgen::has_unicode_escape_trouble(text) {
+                    // the lexer's offsets are off after a malformed \u escape (listed finding)
+                    obs.known(
+                        KF_ESCAPE_DESYNC,
+                        json!({"text": clip(text), "error": e.message(), "labels": labels, "text_len": text.len(), "context": ctx}),
+                    );
+                    return;
+                }
                 if bad {
                     obs.violation(
                         format!("error-not-located:{}", variant_name(e)),
-                        json!({"text": clip(text), "error": format!("{e:?}").chars().take(600).collect::<String>(),
+                        json!({"text": clip(text), "error": e.message(),
                                "labels": labels, "text_len": text.len(), "context": ctx}),
                     );
                     return;
@@ -746,6 +805,7 @@ impl M {
             "kern(40000sp)",
             "chars(\"\\u{fffffffff}\")",
             "chars(\"\\u\u{e9}x\")",
+            "hbox(glue_ratio=\"1.-\")",
         ];
         if (idx as usize) < CRASHERS.len() {
             let text = CRASHERS[idx as usize];
@@ -927,8 +987,8 @@ impl Monitor for M {
             ("gen_nodes:glue", 100_000 * k),
             ("gen_nodes:kern", 50_000 * k),
             ("gen_nodes:penalty", 50_000 * k),
-            ("gen_nodes:rule", 50_000 * k),
-            ("gen_nodes:lig", 30_000 * k),
+            ("gen_nodes:rule", 40_000 * k),
+            ("gen_nodes:lig", 25_000 * k),
             ("gen_nodes:disc", 10_000 * k),
             ("gen_nodes:math", 20_000 * k),
             ("gen_nodes:mark", 20_000 * k),
